@@ -317,7 +317,20 @@ where
                             }
                         }
                     }
-                    _ => {}
+                    BoolSym::And | BoolSym::Or => {
+                        if !left.is_solvable() {
+                            return Err(crate::error::parse_led_preceding(format!(
+                                "encountered - '{:?}'",
+                                t
+                            )));
+                        }
+                        if !right.is_solvable() {
+                            return Err(crate::error::parse_led_following(format!(
+                                "encountered - '{:?}'",
+                                t
+                            )));
+                        }
+                    }
                 }
                 Ok(Expression::BooleanExpression(
                     Box::new(left),
